@@ -51,6 +51,17 @@ def structural(pieces, cfg, thorough):
         h2 = clone(); h2.chunks[i].digest = bytes([c.digest[0] ^ 1]) + c.digest[1:]; emit("digest[%d]^1" % i, h2, body)
         if h.flags & 4:
             h2 = clone(); h2.chunks[i].udigest = bytes([c.udigest[0] ^ 1]) + c.udigest[1:]; emit("udigest[%d]^1" % i, h2, body)
+    # an entry dressed up as an empty one in one size column only (the all-zero digest is what an empty entry carries): a reader
+    # that takes its "nothing to verify" shortcut on the wrong column skips the check of bytes it then hands out
+    for i in range(n):
+        c = h.chunks[i]
+        if c.clen == 0:
+            continue
+        z = bytes(len(c.digest))
+        h2 = clone(); h2.chunks[i].ulen = 0; h2.chunks[i].digest = z; emit("ulen[%d]=0,digest[%d]=0" % (i, i), h2, body)
+        h2 = clone(); h2.chunks[i].ulen = 0; h2.chunks[i].digest = z; h2.chunks[i].udigest = z; emit("ulen[%d]=0,digests[%d]=0" % (i, i), h2, body)
+        h2 = clone(); h2.chunks[i].clen = 0; h2.chunks[i].digest = z; emit("clen[%d]=0,digest[%d]=0" % (i, i), h2, body)
+        h2 = clone(); h2.chunks[i].clen = 0; h2.chunks[i].ulen = 0; h2.chunks[i].digest = z; emit("lens[%d]=0,digest[%d]=0" % (i, i), h2, body)
     h2 = clone(); h2.data_digest = bytes(len(h.data_digest)); emit("datadigest=0", h2, body)
     h2 = clone(); h2.data_digest = bytes([h.data_digest[0] ^ 0x80]) + h.data_digest[1:]; emit("datadigest^80", h2, body)
     h2 = clone(); h2.flags ^= 4
